@@ -505,6 +505,7 @@ def run_case(case, ctx):
                     continue
                 _enumerate_scratch_faults(w, o, step)
                 fk = o["fault"]
+                stale_tmp = {p.name for p in list(w.d.glob("*.bin_temp")) + list((w.d / "scratch").glob("*.bin_temp"))}
                 res, target = _do_scratch(w, o, fault_at=(o["k"] % w.nchunks) if fk else None)
                 if res == "crash":
                     return
@@ -516,7 +517,10 @@ def run_case(case, ctx):
                     ctx.check(target.exists() and _sha(target) == w.sha, "C02.scratch_bytes", "scratch file is not the original bytes")
                     if o["dir"] and not w.flat:
                         ctx.check(target.parent == w.d / "scratch" and target.with_suffix(".meta").exists(), "C02.scratch_meta", "metadata not copied next to the scratch file")
-                    ctx.check(not target.with_suffix(".bin_temp").exists(), "C02.tmp_left", "temporary scratch file left behind")
+                    # a temporary file left by an earlier *failed* run is allowed to stay (only final names matter); a
+                    # successful decompression must not leave a new one
+                    ctx.check(target.with_suffix(".bin_temp").name in stale_tmp or not target.with_suffix(".bin_temp").exists(),
+                              "C02.tmp_left", "temporary scratch file left behind by a successful decompression")
                     ctx.label("scratch_ok")
                 shutil.rmtree(w.d / "scratch", ignore_errors=True)
             if ctx.findings:
